@@ -428,16 +428,16 @@ example : UnitQ (⟨-3/5, ⟨0, 4/5, 0⟩⟩ : Quat ℚ) := by norm_num [UnitQ, 
 the given angle (satisfied by `Real.sin`, `Real.cos`: example below).  For a ZERO axis both functions return
 non-rotations (`Vec3::normalized` yields 0): excluded by `axis ≠ 0`. -/
 
-theorem setAxisAngle_consistent {α : Type} [Field α] [LinearOrder α] [IsStrictOrderedRing α] (tmin : α) (sqrt : α → α)
+theorem setAxisAngle_consistent {α : Type} [Field α] [LinearOrder α] [IsStrictOrderedRing α] (tmin tmax : α) (sqrt : α → α)
     (hsqrt : SqrtSpec sqrt) (sin cos : α → α) (q0 : Quat α) (m0 : M44 α) (axis : V3 α) (a : α)
     (hax : axis ≠ ⟨0, 0, 0⟩)
     (hs : sin a = 2 * sin (a / 2) * cos (a / 2))
     (hc : cos a = cos (a / 2) * cos (a / 2) - sin (a / 2) * sin (a / 2))
     (h1 : sin (a / 2) * sin (a / 2) + cos (a / 2) * cos (a / 2) = 1) :
-    Gen.C10.Quat.toMatrix44 (Gen.C10.Quat.setAxisAngle tmin sqrt sin cos q0 axis a) =
-      Gen.C10.M44.setAxisAngle tmin sqrt sin cos m0 axis a := by
+    Gen.C10.Quat.toMatrix44 (Gen.C10.Quat.setAxisAngle tmin tmax sqrt sin cos q0 axis a) =
+      Gen.C10.M44.setAxisAngle tmin tmax sqrt sin cos m0 axis a := by
   obtain ⟨hl, hll⟩ := sqrt_len2 hsqrt axis hax
-  simp only [Gen.C10.Quat.setAxisAngle, Gen.C10.M44.setAxisAngle, C08.V3_length_eq tmin hsqrt]
+  simp only [Gen.C10.Quat.setAxisAngle, Gen.C10.M44.setAxisAngle, C08.V3_length_eq tmin tmax hsqrt]
   simp only [hl, ↓reduceIte, Gen.C10.Quat.toMatrix44]
   rw [hs, hc]
   generalize sqrt (axis.x * axis.x + axis.y * axis.y + axis.z * axis.z) = l at hl hll
@@ -475,20 +475,20 @@ theorem real_half_angle (a : ℝ) :
 theorem real_sqrt_spec : SqrtSpec Real.sqrt := fun x hx => ⟨Real.mul_self_sqrt hx, Real.sqrt_nonneg x⟩
 
 /-- over ℝ with the real functions: no hypotheses beyond a non-zero axis -/
-theorem setAxisAngle_consistent_real (tmin : ℝ) (q0 : Quat ℝ) (m0 : M44 ℝ) (axis : V3 ℝ) (a : ℝ) (hax : axis ≠ ⟨0, 0, 0⟩) :
-    Gen.C10.Quat.toMatrix44 (Gen.C10.Quat.setAxisAngle tmin Real.sqrt Real.sin Real.cos q0 axis a) =
-      Gen.C10.M44.setAxisAngle tmin Real.sqrt Real.sin Real.cos m0 axis a :=
-  setAxisAngle_consistent tmin Real.sqrt real_sqrt_spec Real.sin Real.cos q0 m0 axis a hax
+theorem setAxisAngle_consistent_real (tmin tmax : ℝ) (q0 : Quat ℝ) (m0 : M44 ℝ) (axis : V3 ℝ) (a : ℝ) (hax : axis ≠ ⟨0, 0, 0⟩) :
+    Gen.C10.Quat.toMatrix44 (Gen.C10.Quat.setAxisAngle tmin tmax Real.sqrt Real.sin Real.cos q0 axis a) =
+      Gen.C10.M44.setAxisAngle tmin tmax Real.sqrt Real.sin Real.cos m0 axis a :=
+  setAxisAngle_consistent tmin tmax Real.sqrt real_sqrt_spec Real.sin Real.cos q0 m0 axis a hax
     (real_half_angle a).1 (real_half_angle a).2.1 (real_half_angle a).2.2
 example : (⟨1, 2, -2⟩ : V3 ℝ) ≠ ⟨0, 0, 0⟩ := by intro h; have := congrArg V3.x h; norm_num at this
 
 /-- `setAxisAngle` gives a unit quaternion for a non-zero axis -/
-theorem Quat_setAxisAngle_unit {α : Type} [Field α] [LinearOrder α] [IsStrictOrderedRing α] (tmin : α) (sqrt : α → α)
+theorem Quat_setAxisAngle_unit {α : Type} [Field α] [LinearOrder α] [IsStrictOrderedRing α] (tmin tmax : α) (sqrt : α → α)
     (hsqrt : SqrtSpec sqrt) (sin cos : α → α) (q0 : Quat α) (axis : V3 α) (a : α) (hax : axis ≠ ⟨0, 0, 0⟩)
     (h1 : sin (a / 2) * sin (a / 2) + cos (a / 2) * cos (a / 2) = 1) :
-    UnitQ (Gen.C10.Quat.setAxisAngle tmin sqrt sin cos q0 axis a) := by
+    UnitQ (Gen.C10.Quat.setAxisAngle tmin tmax sqrt sin cos q0 axis a) := by
   obtain ⟨hl, hll⟩ := sqrt_len2 hsqrt axis hax
-  simp only [Gen.C10.Quat.setAxisAngle, C08.V3_length_eq tmin hsqrt]
+  simp only [Gen.C10.Quat.setAxisAngle, C08.V3_length_eq tmin tmax hsqrt]
   simp only [hl, ↓reduceIte, UnitQ, normSq]
   generalize sqrt (axis.x * axis.x + axis.y * axis.y + axis.z * axis.z) = l at hl hll
   field_simp
@@ -687,7 +687,7 @@ theorem exp_log (tmin tmax : ℝ) (htmax : 1 ≤ tmax) (q : Quat ℝ) (hq : Unit
     have hlog : Gen.C10.Quat.log tmax Real.sin Real.arccos (⟨1, ⟨0, 0, 0⟩⟩ : Quat ℝ) = ⟨0, ⟨0, 0, 0⟩⟩ := by
       simp only [Gen.C10.Quat.log, hsmin, Real.arccos_one, ↓reduceIte]
     rw [hlog]
-    simp only [Gen.C10.Quat.exp, C08.V3_length_eq tmin real_sqrt_spec]
+    simp only [Gen.C10.Quat.exp, C08.V3_length_eq tmin tmax real_sqrt_spec]
     simp [sabs]
   · have hθ0 : 0 < Real.arccos r := Real.arccos_pos.mpr (lt_of_le_of_ne hr1 (by
       intro h; subst h
@@ -721,7 +721,7 @@ theorem exp_log (tmin tmax : ℝ) (htmax : 1 ≤ tmax) (q : Quat ℝ) (hq : Unit
           _ = (θ / s) * (θ / s) * (s * s) := by rw [hs2]
           _ = θ * θ := by field_simp
       rw [this]; exact Real.sqrt_mul_self hθ0.le
-    simp only [Gen.C10.Quat.exp, C08.V3_length_eq tmin real_sqrt_spec, hlen, hs, hcos, sabs_of_nonneg hs0.le,
+    simp only [Gen.C10.Quat.exp, C08.V3_length_eq tmin tmax real_sqrt_spec, hlen, hs, hcos, sabs_of_nonneg hs0.le,
       sabs_of_nonneg hθ0.le]
     have hng : ¬ tmax * θ ≤ s := by
       have : θ ≤ tmax * θ := by nlinarith
@@ -737,9 +737,9 @@ example : UnitQ (⟨0, ⟨1, 0, 0⟩⟩ : Quat ℝ) ∧ (-1 : ℝ) < 0 ∧ Real.
   linarith [Real.pi_le_four]
 
 /-- `q.setAxisAngle (q.axis (), q.angle ()) = q` for every unit quaternion (real functions; exactly `q`, not `-q`) -/
-theorem setAxisAngle_axis_angle (tmin : ℝ) (q0 q : Quat ℝ) (hq : UnitQ q) :
-    Gen.C10.Quat.setAxisAngle tmin Real.sqrt Real.sin Real.cos q0 (Gen.C10.Quat.axis tmin Real.sqrt q)
-      (Gen.C10.Quat.angle tmin Real.sqrt ratan2 q) = q := by
+theorem setAxisAngle_axis_angle (tmin tmax : ℝ) (q0 q : Quat ℝ) (hq : UnitQ q) :
+    Gen.C10.Quat.setAxisAngle tmin tmax Real.sqrt Real.sin Real.cos q0 (Gen.C10.Quat.axis tmin tmax Real.sqrt q)
+      (Gen.C10.Quat.angle tmin tmax Real.sqrt ratan2 q) = q := by
   obtain ⟨r, ⟨x, y, z⟩⟩ := q
   simp only [UnitQ, normSq] at hq
   have h0 : 0 ≤ x * x + y * y + z * z := by
@@ -747,7 +747,7 @@ theorem setAxisAngle_axis_angle (tmin : ℝ) (q0 q : Quat ℝ) (hq : UnitQ q) :
   have hll : Real.sqrt (x * x + y * y + z * z) * Real.sqrt (x * x + y * y + z * z) = x * x + y * y + z * z :=
     Real.mul_self_sqrt h0
   have hl0 : 0 ≤ Real.sqrt (x * x + y * y + z * z) := Real.sqrt_nonneg _
-  simp only [Gen.C10.Quat.setAxisAngle, Gen.C10.Quat.axis, Gen.C10.Quat.angle, C08.V3_length_eq tmin real_sqrt_spec, ratan2]
+  simp only [Gen.C10.Quat.setAxisAngle, Gen.C10.Quat.axis, Gen.C10.Quat.angle, C08.V3_length_eq tmin tmax real_sqrt_spec, ratan2]
   generalize Real.sqrt (x * x + y * y + z * z) = l at hll hl0
   have hnorm : ‖(⟨r, l⟩ : ℂ)‖ = 1 := by
     rw [Complex.norm_def, Complex.normSq_apply]
@@ -794,11 +794,11 @@ With f0 = from.normalized (), t0 = to.normalized () (unit because from, to ≠ 0
 it carries f0 onto t0 whenever the main path (f0·t0 ≥ 0) or the split path (|f0 + t0|² > (8 ε)²) is taken; on the
 antipodal fallback (|f0 + t0|² ≤ (8 ε)²) it carries f0 onto −f0 (which is t0 when the vectors are exactly opposite,
 and within 8 ε of t0 otherwise). -/
-theorem setRotationMod_spec (tmin teps : α) {sqrt : α → α} (hsqrt : SqrtSpec sqrt) (q0 : Quat α) (vfrom vto : V3 α)
+theorem setRotationMod_spec (tmin tmax teps : α) {sqrt : α → α} (hsqrt : SqrtSpec sqrt) (q0 : Quat α) (vfrom vto : V3 α)
     (hfrom : vfrom ≠ ⟨0, 0, 0⟩) (hto : vto ≠ ⟨0, 0, 0⟩) :
-    let f0 := Gen.C10.V3.normalized tmin sqrt vfrom
-    let t0 := Gen.C10.V3.normalized tmin sqrt vto
-    let r := Gen.C10.Quat.setRotationMod tmin teps sqrt q0 vfrom vto
+    let f0 := Gen.C10.V3.normalized tmin tmax sqrt vfrom
+    let t0 := Gen.C10.V3.normalized tmin tmax sqrt vto
+    let r := Gen.C10.Quat.setRotationMod tmin tmax teps sqrt q0 vfrom vto
     UnitV f0 ∧ UnitV t0 ∧ UnitQ r ∧
     ((0 ≤ f0.x * t0.x + f0.y * t0.y + f0.z * t0.z ∨
       (8 * teps) * (8 * teps) < (f0.x + t0.x) * (f0.x + t0.x) + (f0.y + t0.y) * (f0.y + t0.y) + (f0.z + t0.z) * (f0.z + t0.z)) →
@@ -808,12 +808,12 @@ theorem setRotationMod_spec (tmin teps : α) {sqrt : α → α} (hsqrt : SqrtSpe
         Gen.C10.Quat.rotateVector r f0 = ⟨-f0.x, -f0.y, -f0.z⟩) := by
   obtain ⟨a, b, c⟩ := vfrom
   obtain ⟨d, e, g⟩ := vto
-  have hF := (V3_normalized_of_ne_zero tmin hsqrt _ hfrom).2
-  have hT := (V3_normalized_of_ne_zero tmin hsqrt _ hto).2
+  have hF := (V3_normalized_of_ne_zero tmin tmax hsqrt _ hfrom).2
+  have hT := (V3_normalized_of_ne_zero tmin tmax hsqrt _ hto).2
   intro f0 t0 r
   simp only [f0, t0, r, Gen.C10.Quat.setRotationMod]
-  generalize Gen.C10.V3.normalized tmin sqrt ⟨a, b, c⟩ = F at hF ⊢
-  generalize Gen.C10.V3.normalized tmin sqrt ⟨d, e, g⟩ = T at hT ⊢
+  generalize Gen.C10.V3.normalized tmin tmax sqrt ⟨a, b, c⟩ = F at hF ⊢
+  generalize Gen.C10.V3.normalized tmin tmax sqrt ⟨d, e, g⟩ = T at hT ⊢
   obtain ⟨fx, fy, fz⟩ := F
   obtain ⟨tx, ty, tz⟩ := T
   simp only
@@ -824,17 +824,17 @@ theorem setRotationMod_spec (tmin teps : α) {sqrt : α → α} (hsqrt : SqrtSpe
   · -- main path
     simp only [h1, ↓reduceIte, true_or, not_true_eq_false, forall_const, IsEmpty.forall_iff, and_true]
     have hs := sum_ne_zero ⟨fx, fy, fz⟩ ⟨tx, ty, tz⟩ hF hT (by simp only; linarith)
-    obtain ⟨u, _, rv, _⟩ := sri_spec tmin hsqrt ⟨fx, fy, fz⟩ ⟨tx, ty, tz⟩ hF hT hs
+    obtain ⟨u, _, rv, _⟩ := sri_spec tmin tmax hsqrt ⟨fx, fy, fz⟩ ⟨tx, ty, tz⟩ hF hT hs
     exact ⟨u, rv⟩
   · by_cases h2 : (8 * teps) * (8 * teps) < (fx + tx) * (fx + tx) + (fy + ty) * (fy + ty) + (fz + tz) * (fz + tz)
     · -- split at the halfway vector
       have hc : -1 < fx * tx + fy * ty + fz * tz := by
         have := mul_self_nonneg (8 * teps); linarith
-      obtain ⟨hH, hu, hr⟩ := split_spec tmin hsqrt ⟨fx, fy, fz⟩ ⟨tx, ty, tz⟩ hF hT hc
+      obtain ⟨hH, hu, hr⟩ := split_spec tmin tmax hsqrt ⟨fx, fy, fz⟩ ⟨tx, ty, tz⟩ hF hT hc
       simp only at hH hu hr
-      have hne : ¬ ((Gen.C10.V3.normalized tmin sqrt ⟨fx + tx, fy + ty, fz + tz⟩).x * (Gen.C10.V3.normalized tmin sqrt ⟨fx + tx, fy + ty, fz + tz⟩).x +
-          (Gen.C10.V3.normalized tmin sqrt ⟨fx + tx, fy + ty, fz + tz⟩).y * (Gen.C10.V3.normalized tmin sqrt ⟨fx + tx, fy + ty, fz + tz⟩).y +
-          (Gen.C10.V3.normalized tmin sqrt ⟨fx + tx, fy + ty, fz + tz⟩).z * (Gen.C10.V3.normalized tmin sqrt ⟨fx + tx, fy + ty, fz + tz⟩).z = 0) := by
+      have hne : ¬ ((Gen.C10.V3.normalized tmin tmax sqrt ⟨fx + tx, fy + ty, fz + tz⟩).x * (Gen.C10.V3.normalized tmin tmax sqrt ⟨fx + tx, fy + ty, fz + tz⟩).x +
+          (Gen.C10.V3.normalized tmin tmax sqrt ⟨fx + tx, fy + ty, fz + tz⟩).y * (Gen.C10.V3.normalized tmin tmax sqrt ⟨fx + tx, fy + ty, fz + tz⟩).y +
+          (Gen.C10.V3.normalized tmin tmax sqrt ⟨fx + tx, fy + ty, fz + tz⟩).z * (Gen.C10.V3.normalized tmin tmax sqrt ⟨fx + tx, fy + ty, fz + tz⟩).z = 0) := by
         simp only [UnitV] at hH; rw [hH]; exact one_ne_zero
       simp only [h1, h2, hne, ↓reduceIte, false_or, true_implies, not_true_eq_false, not_false_eq_true, forall_const,
         IsEmpty.forall_iff, and_true]
@@ -842,16 +842,16 @@ theorem setRotationMod_spec (tmin teps : α) {sqrt : α → α} (hsqrt : SqrtSpe
     · -- antipodal fallback
       have h0 : ((0 : α) * 0 + 0 * 0 + 0 * 0 = 0) := by ring
       simp only [h1, h2, h0, ↓reduceIte, false_or, not_false_eq_true, forall_const, false_implies, true_and]
-      exact fallback_leaves tmin hsqrt fx fy fz hF
+      exact fallback_leaves tmin tmax hsqrt fx fy fz hF
 
 /-- in every case the image of f0 is within `8 ε` of t0 (squared distance ≤ (8 ε)²), and exactly t0 off the fallback -/
-theorem setRotationMod_carries (tmin teps : α) {sqrt : α → α} (hsqrt : SqrtSpec sqrt) (q0 : Quat α) (vfrom vto : V3 α)
+theorem setRotationMod_carries (tmin tmax teps : α) {sqrt : α → α} (hsqrt : SqrtSpec sqrt) (q0 : Quat α) (vfrom vto : V3 α)
     (hfrom : vfrom ≠ ⟨0, 0, 0⟩) (hto : vto ≠ ⟨0, 0, 0⟩) :
-    let f0 := Gen.C10.V3.normalized tmin sqrt vfrom
-    let t0 := Gen.C10.V3.normalized tmin sqrt vto
-    let p := Gen.C10.Quat.rotateVector (Gen.C10.Quat.setRotationMod tmin teps sqrt q0 vfrom vto) f0
+    let f0 := Gen.C10.V3.normalized tmin tmax sqrt vfrom
+    let t0 := Gen.C10.V3.normalized tmin tmax sqrt vto
+    let p := Gen.C10.Quat.rotateVector (Gen.C10.Quat.setRotationMod tmin tmax teps sqrt q0 vfrom vto) f0
     (p.x - t0.x) * (p.x - t0.x) + (p.y - t0.y) * (p.y - t0.y) + (p.z - t0.z) * (p.z - t0.z) ≤ (8 * teps) * (8 * teps) := by
-  obtain ⟨_, _, _, h1, h2⟩ := setRotationMod_spec tmin teps hsqrt q0 vfrom vto hfrom hto
+  obtain ⟨_, _, _, h1, h2⟩ := setRotationMod_spec tmin tmax teps hsqrt q0 vfrom vto hfrom hto
   intro f0 t0 p
   by_cases hc : (0 ≤ f0.x * t0.x + f0.y * t0.y + f0.z * t0.z ∨
       (8 * teps) * (8 * teps) < (f0.x + t0.x) * (f0.x + t0.x) + (f0.y + t0.y) * (f0.y + t0.y) + (f0.z + t0.z) * (f0.z + t0.z))
@@ -866,9 +866,9 @@ theorem setRotationMod_carries (tmin teps : α) {sqrt : α → α} (hsqrt : Sqrt
       _ ≤ _ := this
 
 /-- `rotationMatrix (from, to) = setRotation (from, to) . toMatrix44 ()` -/
-theorem rotationMatrixMod_eq (tmin teps : α) (sqrt : α → α) (q0 : Quat α) (vfrom vto : V3 α) :
-    Gen.C10.rotationMatrixMod tmin teps sqrt vfrom vto =
-      Gen.C10.Quat.toMatrix44 (Gen.C10.Quat.setRotationMod tmin teps sqrt q0 vfrom vto) := by
+theorem rotationMatrixMod_eq (tmin tmax teps : α) (sqrt : α → α) (q0 : Quat α) (vfrom vto : V3 α) :
+    Gen.C10.rotationMatrixMod tmin tmax teps sqrt vfrom vto =
+      Gen.C10.Quat.toMatrix44 (Gen.C10.Quat.setRotationMod tmin tmax teps sqrt q0 vfrom vto) := by
   simp only [Gen.C10.rotationMatrixMod, Gen.C10.Quat.setRotationMod, apply_ite Gen.C10.Quat.toMatrix44,
     Gen.C10.Quat.toMatrix44]
   repeat' (split_ifs with hc <;> simp only [hc, ↓reduceIte])
